@@ -1,5 +1,6 @@
 /* further commands of the harness (queries, files, scanner); see qsx_harness.c for the protocol */
 #include <stdio.h>
+#include <unistd.h>
 #include <stdlib.h>
 #include <string.h>
 #include "QSopt_ex.h"
@@ -140,6 +141,9 @@ static void cmd_readcheck (void)
 		printf ("wmps %d\n", rv ? 1 : 0);
 		if (mpq_QSget_colcount (p) <= 60 && mpq_QSget_rowcount (p) <= 60)
 		{
+			/* the alarm of a forked probe is for the reader; an unbounded problem takes the exact solver through every
+			 * precision level (seconds under ASan, more on a loaded machine), which is no hang of the reader */
+			if (getenv ("QSX_ALARM")) { fflush (PO); alarm (15 * atoi (getenv ("QSX_ALARM"))); }
 			rv = QSexact_solver (p, 0, 0, 0, DUAL_SIMPLEX, &st);
 			printf ("solve %d %d\n", rv ? 1 : 0, st);
 		}
